@@ -88,6 +88,7 @@ structure BaseRef (A B : NumSem) : Prop where
   store : B.storeT = A.storeT
   grow : B.grow = A.grow
   bulk : B.bulkT = A.bulkT
+  rmw : B.rmwT = A.rmwT
 
 theorem indirect_noub (m : MModule) (cA cB : Nat → List Val → GS → Out (Option Val × GS))
     (h : ∀ fn args g, Out.NoUB (cA fn args g) → cB fn args g = cA fn args g) (ty i : Nat) (args : List Val) (g : GS)
@@ -129,12 +130,13 @@ theorem runT_eq (m : MModule) (A B : NumSem) (hab : BaseRef A B) (cfs : List Mod
              fun fn mm ea _ => by show B.loadT fn mm ea = A.loadT fn mm ea; rw [hab.load],
              fun fn mm ea v _ => by show B.storeT fn mm ea v = A.storeT fn mm ea v; rw [hab.store],
              hab.grow,
-             fun op mm a b c _ => by show B.bulkT op mm a b c = A.bulkT op mm a b c; rw [hab.bulk]⟩
+             fun op mm a b c _ => by show B.bulkT op mm a b c = A.bulkT op mm a b c; rw [hab.bulk],
+             fun fn mm ea args _ => by show B.rmwT fn mm ea args = A.rmwT fn mm ea args; rw [hab.rmw]⟩
           rw [runFuncTgt_refine _ _ href]
           intro hs; rw [hs] at hn; exact hn
         · simp only [hty, if_false]
 
 theorem baseRef_macro (grow : Mem → Nat → Mem × BitVec 32) (datas : List (List UInt8) := []) : BaseRef (withConcMem specNS grow datas) (withConcMem macroNS grow datas) :=
-  ⟨macroNum_refines_specNum, rfl, rfl, rfl, rfl⟩
+  ⟨macroNum_refines_specNum, rfl, rfl, rfl, rfl, rfl⟩
 
 end W2c2Verif.Sim
